@@ -130,6 +130,15 @@ def merge_module(pairs, defaults):
                 "    return ok\n") % us
         src.append("def defaults_%d(%s) -> bool:\n    \"\"\"\n    post: _\n    \"\"\"\n%s" % (i, args, body))
         src.append("def twin_defaults_%d(%s) -> bool:\n    \"\"\"\n    post: False\n    \"\"\"\n%s" % (i, args, body))
+    # history: a second apply_default_config call in the same process must not see anything of the first user's values
+    for i, j in ((1, 0), (0, 2)):
+        names = []
+        u1 = render(DEFAULT_USERS[i], names, "a")
+        u2 = render(DEFAULT_USERS[j], names, "b")
+        args = ", ".join("%s: int" % n for n in names)
+        body = ("    first = apply_default_config(%s)\n    user = %s\n    out = apply_default_config(user)\n"
+                "    return out == oracle(user, DEFAULTS)\n") % (u1, u2)
+        src.append("def history_%d_%d(%s) -> bool:\n    \"\"\"\n    post: _\n    \"\"\"\n%s" % (i, j, args, body))
     return "DEFAULTS = %r\n" % (defaults,) + "\n".join(src)
 
 
@@ -174,6 +183,10 @@ def cex_args(msgs, fname):
         return [int(x.split("=")[-1].strip()) for x in m.group(1).split(",") if x.strip()]
     except ValueError:
         return None
+
+
+def leaves_of(t):
+    return [1 for k, v in t.items() for _ in (leaves_of(v) if isinstance(v, dict) else [1])]
 
 
 def fill_tree(t, values, cnt):
@@ -292,6 +305,36 @@ def merge_part(chk, tier, rng):
                     chk.inconclusive("apply_default_config %d" % i, msgs[:100])
                 if "false when calling" not in tw:
                     chk.harness_error("twin of apply_default_config %d not refuted" % i)
+        if idx == 0:
+            for i, j in ((1, 0), (0, 2)):
+                fname = "history_%d_%d" % (i, j)
+                msgs = " | ".join(res.get(fname, []))
+                v = "unsat" if "Confirmed over all paths" in msgs else ("sat" if "false when calling" in msgs else "unknown")
+                chk.obligation("history: apply_default_config(user %d) after apply_default_config(user %d) in the same process == user %d over "
+                               "the packaged defaults" % (j, i, j), v, solver="crosshair 0.0.110 / z3", kind="crosshair-condition(history)",
+                               detail=msgs[:160] if v != "unsat" else None)
+                if v == "sat":
+                    args = cex_args(msgs, fname) or []
+                    from cij.io.config.config import apply_default_config
+                    n1 = len(leaves_of(DEFAULT_USERS[i]))
+                    u1 = fill_tree(DEFAULT_USERS[i], args[:n1] if args else None, [0])
+                    u2 = fill_tree(DEFAULT_USERS[j], args[n1:] if args else None, [0])
+                    from harness.common import fresh_copy
+                    import cij.io.config.config as cfgmod
+                    fm = fresh_copy(cfgmod)
+                    fm.apply_default_config(copy.deepcopy(u1))
+                    got = fm.apply_default_config(copy.deepcopy(u2))
+                    g = dict(update_config=None, apply_default_config=None, copy=copy)
+                    exec(PRELUDE.split("from cij.io.config.config import update_config, apply_default_config")[1], g)
+                    want = g["oracle"](u2, defaults)
+                    if got != want:
+                        bad = [".".join(p_) for p_, vv in g["leaves"](want).items() if g["leaves"](got).get(p_, "<missing>") != vv]
+                        chk.violation("apply-defaults:history", "apply_default_config(%s) called after apply_default_config(%s) differs from 'user over "
+                                      "packaged defaults' at %s" % (u2, u1, bad[:4]), dict(first=u1, second=u2, got=got))
+                    else:
+                        chk.harness_error("history condition: CrossHair counterexample did not reproduce (%s)" % msgs[:100])
+                elif v == "unknown":
+                    chk.inconclusive(fname, msgs[:100] or "no verdict")
     chk.witness("merge: %d reachability twins refuted" % n_tw, "sat" if n_tw else "unsat")
     chk.sample(dict(user=pairs[0][0], default=pairs[0][1], leaves="symbolic ints"))
     chk.note("CrossHair: %d merge conditions confirmed over all paths in %.1fs" % (n_conf, time.time() - t0))
